@@ -1180,68 +1180,22 @@ def check_raw(case):
                    data[:48].hex(), out[:48].hex()), labels=labels)
 
 
+def fuzz_seeds():
+    return [bytes([selector_for(e["ctx"])]) + e["bytes"] for e in corpus()]
+
+
+def fuzz_case(data):
+    if len(data) < 2:
+        return None
+    return {"src": "raw", "sel": data[0], "hex": data[1:].hex(),
+            "mut": ["raw"]}
+
+
 def fuzz_stage(tier, seed):
-    """atheris campaigns in parallel sub-processes (own corpus dirs, seeds
-    derived from VERIF_SEED); returns (recorded failing cases, stats)."""
-    import json
-    import shutil
-    import subprocess
-    import tempfile
-    from vlib import ROOT
-    from vlib.runner import HarnessError
-    target = os.path.join(ROOT, "fuzz", "codec_target.py")
-    try:
-        import importlib.util
-        if importlib.util.find_spec("atheris") is None:
-            raise ImportError
-    except ImportError:
-        raise HarnessError("atheris not importable: stage skipped")
-    runs = 20000 if tier == "quick" else 400000
-    nproc = 4 if tier == "quick" else 16
-    budget = 60 if tier == "quick" else 1500
-    base = tempfile.mkdtemp(prefix="c15fuzz-")
-    procs = []
-    try:
-        for k in range(nproc):
-            wd = os.path.join(base, "w%d" % k)
-            os.makedirs(wd)
-            procs.append((wd, subprocess.Popen(
-                [sys.executable, "-B", target, wd, "-runs=%d" % runs,
-                 "-seed=%d" % (1 + (seed * 131 + k) % (2 ** 31 - 2)),
-                 "-max_len=2048", "-timeout=20",
-                 "-max_total_time=%d" % budget, "-print_final_stats=1"],
-                stdout=subprocess.DEVNULL, stderr=subprocess.PIPE,
-                env=dict(os.environ, PYTHONHASHSEED="0"))))
-        extra, execs, cov, corp = [], 0, 0, 0
-        for wd, pr in procs:
-            try:
-                _, err = pr.communicate(timeout=budget + 120)
-            except subprocess.TimeoutExpired:
-                pr.kill()
-                _, err = pr.communicate()
-            err = err.decode("utf-8", "replace")
-            for line in err.splitlines():
-                if line.startswith("stat::number_of_executed_units:"):
-                    execs += int(line.split()[-1])
-                if " cov: " in line and ("DONE" in line or "INITED" in line
-                                         or "pulse" in line):
-                    try:
-                        cov = max(cov, int(line.split(" cov: ")[1].split()[0]))
-                        corp = max(corp, int(line.split(" corp: ")[1].split(
-                            "/")[0]))
-                    except (IndexError, ValueError):
-                        pass
-            fj = os.path.join(wd, "findings.json")
-            if os.path.exists(fj):
-                with open(fj) as f:
-                    for sig, case in json.load(f)["findings"].items():
-                        extra.append(case)
-        return extra, {"tool": "atheris/libFuzzer", "processes": nproc,
-                       "executions": execs, "coverage_edges": cov,
-                       "corpus_units": corp,
-                       "recorded_failing_inputs": len(extra)}
-    finally:
-        shutil.rmtree(base, ignore_errors=True)
+    from vlib.fuzzstage import run_campaigns
+    if tier == "quick":
+        return run_campaigns("C15", seed, 20000, 4, 60, empty_corpus_procs=1)
+    return run_campaigns("C15", seed, 400000, 16, 1500, empty_corpus_procs=2)
 
 
 def check_oversize(case):
